@@ -1,3 +1,5 @@
+import Cactus.Lemmas.Once
+import Cactus.Lemmas.NoErr
 import Cactus.Lemmas.Final
 import Cactus.Lemmas.Orphan
 import Cactus.Props.C16
@@ -80,5 +82,26 @@ continuation, and only while the object still owns it: a second release of the s
 the library cannot be scheduled (no hypothesis on the history) -/
 theorem C02_release_scheduled_at_most_once {s : State} (h : Reachable s) (he : s.err = none) (o : Nat) :
     s.owed o ≤ 1 := (reachable_core h he).1.2.2.2.2.2.2 o
+
+
+/-- **C02 (library side).** In every contract-respecting execution the machine never reports a
+read or write of a released allocation (`uaf`), of a moved-out link table (`movedLinks`) or value
+(`movedValue`), a double release, a counter underflow or a corrupted counter — and the program
+never even holds a dangling handle (`dangling`).  The only ways the machine can stop are running
+out of fuel and the two documented aborts (cloning a dead handle, a second panic while unwinding). -/
+theorem C02_no_access_after_release {s : State} (h : ReachableP s) (o : Nat) :
+    s.err ≠ some (.uaf o) ∧ s.err ≠ some (.movedLinks o) ∧ s.err ≠ some (.movedValue o)
+    ∧ s.err ≠ some (.doubleFree o) ∧ s.err ≠ some (.underflow o) ∧ s.err ≠ some (.corrupt o)
+    ∧ s.err ≠ some (.dangling o) := reachableP_no_library_error h o
+
+/-- **C02 (at most once).** In every execution of every history — no contract needed, panics
+included — the destructor of each stored value runs at most once and each allocation is released
+at most once; and a value that is still in place has not been destroyed. -/
+theorem C02_destroyed_and_released_at_most_once {s : State} (h : Reachable s) :
+    s.destroyedVids.Nodup ∧ s.freedIds.Nodup ∧ ∀ v ∈ s.allVals, v.vid ∉ s.destroyedVids :=
+  ⟨(reachable_once' h).1, (reachable_once' h).2, reachable_stored_not_destroyed h⟩
+
+theorem C02_run_at_most_once (ops : List (Op × List Nat)) :
+    (run ops).destroyedVids.Nodup ∧ (run ops).freedIds.Nodup := run_once ops
 
 end Cactus
